@@ -146,41 +146,46 @@ func RunJobs(command string, n int, jobs []interface{}, perJob time.Duration, de
 				}
 			}()
 			for it := range ch {
-				if w == nil {
-					var err error
-					w, err = startWorker(command, id, extraEnv)
-					if err != nil {
-						mu.Lock()
-						handle(JobResult{Index: it.idx, Died: true, Stderr: "cannot start worker: " + err.Error()})
-						mu.Unlock()
-						continue
-					}
-				}
 				b, _ := json.Marshal(it.job)
 				b = append(b, '\n')
-				res := JobResult{Index: it.idx}
-				if _, err := w.in.Write(b); err != nil {
-					res.Died = true
-				} else {
-					timer := time.NewTimer(perJob)
-					select {
-					case line, ok := <-w.lines:
-						if !ok {
-							res.Died = true
-						} else {
-							res.Out = json.RawMessage(line)
+				var res JobResult
+				// a job whose worker dies or hangs is retried once in a fresh worker: only a death that
+				// reproduces is reported (a one-off death is an infrastructure hiccup, not a verdict)
+				for attempt := 0; attempt < 2; attempt++ {
+					if w == nil {
+						var err error
+						w, err = startWorker(command, id, extraEnv)
+						if err != nil {
+							res = JobResult{Index: it.idx, Died: true, Stderr: "cannot start worker: " + err.Error()}
+							break
 						}
-					case <-timer.C:
-						res.Timeout = true
 					}
-					timer.Stop()
-				}
-				if res.Died || res.Timeout {
-					// give the process a moment to flush stderr
-					time.Sleep(20 * time.Millisecond)
-					res.Stderr = w.stderr.String()
-					w.kill()
-					w = nil
+					res = JobResult{Index: it.idx}
+					if _, err := w.in.Write(b); err != nil {
+						res.Died = true
+					} else {
+						timer := time.NewTimer(perJob)
+						select {
+						case line, ok := <-w.lines:
+							if !ok {
+								res.Died = true
+							} else {
+								res.Out = json.RawMessage(line)
+							}
+						case <-timer.C:
+							res.Timeout = true
+						}
+						timer.Stop()
+					}
+					if res.Died || res.Timeout {
+						// give the process a moment to flush stderr
+						time.Sleep(20 * time.Millisecond)
+						res.Stderr = w.stderr.String()
+						w.kill()
+						w = nil
+						continue
+					}
+					break
 				}
 				mu.Lock()
 				handle(res)
